@@ -47,7 +47,14 @@ fn sep_strategy(parseable: bool) -> BS<String> {
 }
 
 fn fmt_strategy() -> BS<Fmt> {
-    let items = prop::collection::vec((0usize..14, sep_strategy(false)), 1..=16);
+    let free = prop::collection::vec((0usize..14, sep_strategy(false)), 1..=16).boxed();
+    // the largest formats: 15 or 16 tokens, two separator characters after (almost) every one, and the tokens
+    // with the longest renderings (%f, %A, %B, %z) favoured: format strings of up to 62 bytes, output up to 174
+    let two = (prop::sample::select((0x20u8..0x7f).map(|b| b as char).filter(|c| *c != '%' && *c != '?').collect::<Vec<char>>()), prop::sample::select((0x20u8..0x7f).map(|b| b as char).filter(|c| *c != '%' && *c != '?').collect::<Vec<char>>()), 0u8..12)
+        .prop_map(|(a, b, k)| if k == 0 { a.to_string() } else { format!("{a}{b}") });
+    let long_tok = prop_oneof![3 => prop::sample::select(vec![6usize, 8, 10, 13]), 1 => 0usize..14];
+    let largest = prop::collection::vec((long_tok, two), 15..=16).boxed();
+    let items = wunion(vec![(7, free), (1, largest)]);
     let off = prop_oneof![3 => Just(0i32), 2 => -1439i32..=1439, 1 => (-23i32..=23).prop_map(|h| h * 60)];
     (items, ns1900_0001_9999(), 0usize..9, off).prop_map(|(items, g, s, off_min)| Fmt { items, g, s, off_min }).boxed()
 }
@@ -342,6 +349,78 @@ pub fn back_oracle(c: &Back) -> Verdict {
     Verdict::Pass(if name { "name-token" } else { "numeric-only" }, true)
 }
 
+// ---------------------------------------------------------------- month and weekday names (exhaustive)
+#[derive(Clone, Debug, Serialize, Deserialize)]
+pub struct Name {
+    /// 0 month, 1 weekday
+    pub kind: u8,
+    pub idx: usize,
+    /// 0 full name, 1 three-letter name
+    pub short: bool,
+    /// 0 as printed, 1 lower case, 2 upper case, 3 alternating case, 4 with surrounding blanks
+    pub casing: u8,
+}
+
+fn name_enum(_t: Tier, shard: usize, sink: &mut dyn FnMut(Name) -> bool) {
+    let mut i = 0;
+    for kind in 0..2u8 {
+        for idx in 0..(if kind == 0 { 12 } else { 7 }) {
+            for short in [false, true] {
+                for casing in 0..5u8 {
+                    i += 1;
+                    if i % SHARDS == shard && !sink(Name { kind, idx, short, casing }) {
+                        return;
+                    }
+                }
+            }
+        }
+    }
+}
+
+fn name_oracle(c: &Name) -> Verdict {
+    let printed = match (c.kind, c.short) {
+        (0, false) => MONTH_LONG[c.idx],
+        (0, true) => MONTH_SHORT[c.idx],
+        (_, false) => WEEKDAY_LONG[c.idx],
+        (_, true) => WEEKDAY_SHORT[c.idx],
+    };
+    let txt = match c.casing {
+        0 => printed.to_string(),
+        1 => printed.to_lowercase(),
+        2 => printed.to_uppercase(),
+        3 => printed.chars().enumerate().map(|(i, ch)| if i % 2 == 0 { ch.to_ascii_lowercase() } else { ch.to_ascii_uppercase() }).collect(),
+        _ => format!(" {printed} "),
+    };
+    // whatever spelling is accepted denotes the month / weekday it spells; the printed spelling is accepted
+    if c.kind == 0 {
+        let r = lib!(hifitime::MonthName::from_str(&txt));
+        if let Ok(m) = r {
+            ensure!(m as u8 as usize == c.idx + 1 || format!("{m}") == MONTH_LONG[c.idx], "MonthName::from_str({:?}) = {:?}, want {}", txt, m, MONTH_LONG[c.idx]);
+            ensure!(format!("{m}") == MONTH_LONG[c.idx] && format!("{m:x}") == MONTH_SHORT[c.idx], "MonthName::from_str({:?}) prints as {} / {:x}, want {} / {}", txt, m, m, MONTH_LONG[c.idx], MONTH_SHORT[c.idx]);
+        }
+        ensure!(c.casing != 0 || r.is_ok(), "the printed month name {:?} is not accepted", txt);
+        // and through a format: the date built has that month
+        if r.is_ok() && c.casing <= 2 {
+            let f = if c.short { "%d %b %Y" } else { "%d %B %Y" };
+            let e = lib!(Epoch::from_format_str(&format!("15 {txt} 2015"), f));
+            match e {
+                Ok(e) => {
+                    let (y, m, d, ..) = e.to_gregorian_utc();
+                    ensure!((y, m as usize, d) == (2015, c.idx + 1, 15), "\"15 {} 2015\" with {:?} builds {}-{}-{}", txt, f, y, m, d);
+                }
+                Err(err) => return Verdict::Fail(format!("\"15 {} 2015\" with {:?} fails: {:?}", txt, f, err)),
+            }
+        }
+    } else {
+        let r = lib!(hifitime::Weekday::from_str(&txt));
+        if let Ok(w) = r {
+            ensure!(format!("{w}") == WEEKDAY_LONG[c.idx] && format!("{w:x}") == WEEKDAY_SHORT[c.idx], "Weekday::from_str({:?}) prints as {} / {:x}, want {} / {}", txt, w, w, WEEKDAY_LONG[c.idx], WEEKDAY_SHORT[c.idx]);
+        }
+        ensure!(c.casing != 0 || r.is_ok(), "the printed weekday name {:?} is not accepted", txt);
+    }
+    Verdict::Pass(if c.casing == 0 { "as-printed" } else { "other-casing" }, true)
+}
+
 pub fn subs() -> Vec<Box<dyn DynSub>> {
     vec![
         sub(Sub { name: "c19.format", source: Source::Gen(fmt_strategy, 1_200_000, 15_000_000), oracle: fmt_oracle, known: no_known, hang_is_violation: false }),
@@ -349,6 +428,7 @@ pub fn subs() -> Vec<Box<dyn DynSub>> {
         sub(Sub { name: "c19.constants", source: Source::Gen(const_strategy, 600_000, 5_000_000), oracle: const_oracle, known: no_known, hang_is_violation: false }),
         sub(Sub { name: "c19.parse_back_ordinal", source: Source::Gen(back_ordinal_strategy, 200_000, 3_000_000), oracle: back_oracle, known: no_known, hang_is_violation: false }),
         sub(Sub { name: "c19.parse_back", source: Source::Gen(back_strategy, 600_000, 5_000_000), oracle: back_oracle, known: no_known, hang_is_violation: false }),
+        sub(Sub { name: "c19.names", source: Source::Enum(name_enum, |_| true), oracle: name_oracle, known: no_known, hang_is_violation: false }),
         crate::props::fuzzsub::c19_fuzz(),
         crate::props::fuzzsub::fc19(),
     ]
